@@ -434,6 +434,11 @@ def run(ctx):
             for fixed_mask in ((0, 0), (0, 1), (1, 0)):
                 cases.append({'kind': 'opt', 'opt': name, 'model': 'linear', 'k': 2, 'multinom': False, 'box': box, 'fixed_only': list(fixed_mask),
                               'start_stride': None, 'one_sided': side})
+    # ... and a lower bound list only (upper left at None; parameters stay positive) for the optimisers that take their bounds natively
+    for name in ('optimize_cons', 'opt_cobyla', 'opt_log', 'optimize_lbfgsb', 'optimize_log_lbfgsb'):
+        for fixed_mask in ((0, 0), (0, 1), (1, 0)):
+            cases.append({'kind': 'opt', 'opt': name, 'model': 'linear', 'k': 2, 'multinom': False, 'box': 'above', 'fixed_only': list(fixed_mask),
+                          'start_stride': None, 'one_sided': 'lower'})
     # parameters fixed at exactly 0
     for name in LOCAL:
         for fixed_mask in ((1, 0, 0), (0, 1, 0), (0, 0, 1), (1, 1, 0), (0, 1, 1)):
